@@ -348,6 +348,7 @@ func session(l lister, view map[string][]byte, valueOwner map[string]string, pre
 	}
 	var key []byte
 	limit := len(view) + 4
+	seenKeys := map[string]bool{}
 	for n := 0; ; n++ {
 		if n > limit {
 			return got, &mismatch{"no-termination", fmt.Sprintf("more than %d pages", limit)}
@@ -361,6 +362,9 @@ func session(l lister, view map[string][]byte, valueOwner map[string]string, pre
 			var e kv
 			switch enc {
 			case 0:
+				if len(raw) == 0 {
+					return got, &mismatch{"deleted-entry", "page returned an empty value, i.e. an entry marked deleted"}
+				}
 				k, ok := valueOwner[string(raw)]
 				if !ok {
 					return got, &mismatch{"foreign-value", fmt.Sprintf("page returned value %q that no layer holds", raw)}
@@ -375,6 +379,11 @@ func session(l lister, view map[string][]byte, valueOwner map[string]string, pre
 				}
 				e = kv{string(p.Key), p.Value}
 			}
+			if seenKeys[e.k] {
+				got = append(got, e)
+				return got, &mismatch{"duplicate", fmt.Sprintf("entry %q returned twice (page %d)", e.k, n+1)}
+			}
+			seenKeys[e.k] = true
 			got = append(got, e)
 		}
 		key = []byte(got[len(got)-1].k)
